@@ -481,10 +481,14 @@ def execute(scn):
                 if stdout != "":
                     viol.append({"oracle": "plain-mode-wrote-stdout", "where": 0, "detail": {"stdout": stdout[:200]}})
             else:
+                out_lines = stdout.split("\n")
                 for p in sorted(set(valid_paths)):
-                    if stdout.count(p) != valid_paths.count(p):
+                    # one header per listing of a valid instance = one stdout LINE naming it (a header may well
+                    # name the path more than once on that line)
+                    n_lines = sum(1 for line in out_lines if p in line)
+                    if n_lines != valid_paths.count(p):
                         viol.append({"oracle": "pretty-success-header-count", "where": 0,
-                                     "detail": {"path": p, "count": stdout.count(p), "listed": valid_paths.count(p),
+                                     "detail": {"path": p, "count": n_lines, "listed": valid_paths.count(p),
                                                 "stdout": stdout[:300]}})
                         break
                 for p in must_open + [scn["schema_path"]]:
